@@ -159,6 +159,9 @@ def native_ns(mods, mode):
     ns = {k: getattr(cal, k) for k in dir(cal) if not k.startswith("__")}
     ns.update({k: getattr(nat, k) for k in dir(nat) if not k.startswith("__")})
     ns["CALENDAR"] = mods["data"].CALENDAR
+    import time as _time
+    ns["time"] = _time
+    ns["timezone"] = mods["timezone"]
     ns["_fcmp"] = _fcmp
     cal.isint = lambda x: (not isinstance(x, float)) or abs(x - round(x)) <= TOL
     ns["isint"] = lambda x: (not isinstance(x, float)) or abs(x - round(x)) <= TOL
@@ -199,8 +202,18 @@ def replay(rep, repo, verbose=True):
     args = {k: build(r, rep["model"], mods) for k, r in rep["recipe"].items()}
     if "patch_time" in rep:
         import time as _t
+
+        class _LT:
+            pass
         for k, v in rep["patch_time"].items():
-            setattr(_t, k, v)
+            v = num(v, "Int")
+            if k == "tm_isdst":
+                lt = _LT()
+                lt.tm_isdst = v
+                _t.localtime = lambda *a, lt=lt: lt
+            else:
+                setattr(_t, k, v)
+        ns["time"] = _t
     pre = copy.deepcopy(args)
     pre_ns = dict(ns)
     pre_ns.update(pre)
